@@ -97,7 +97,7 @@ _add(
          "post-conditions are evaluated against the CONFIGURED values inside every firing by a class-level wrapper. Non-trivial: everything except bare mode switches; "
          "distinct = (hook kind, operation, registered, alive, armed, position, probe type) / (hook, target, parameters).",
     required=["module_calls_checked", "manual_calls_checked", "deregistrations_checked", "collections_checked",
-              "postcondition_evaluations.clamp", "postcondition_evaluations.norm", "hook_order_checks", "raising_call_checks", "postcondition_evaluations.complex_scale"],
+              "postcondition_evaluations.clamp", "postcondition_evaluations.norm", "hook_order_checks", "raising_call_checks", "postcondition_evaluations.complex_scale", "clamped_integer_typed_targets"],
     floor={"quick": 200, "thorough": 400},
     text="Held on every operation sequence explored: the number and position of hook firings per module call and per "
          "manual call is compared with an explicit registered / enabled / mode / alive state machine, handle counts are "
